@@ -467,12 +467,556 @@ Section Steps.
         unfold bk in Hb. rewrite lookup_snapshot, Hc in Hb. auto.
       + assert (Hns : ~ In p (map fst strays)).
         { intro H. apply (arr2 p (skipn (hk s2) hint)), existsb_path_In in H. congruence. }
-        rewrite E2 by reflexivity.
+        rewrite (E2 eq_refl p).
         rewrite (lookup_apply_list _ (dsk s1) p).
         2:{ eapply Permutation_NoDup; [apply Permutation_map, arrange_perm|exact Htodo]. }
         rewrite <- (lookup_perm todo _ p (arrange_perm fst _ todo) Htodo).
-        unfold todo. rewrite (lookup_filter_key_val _ _).
-        all: fail.
-  Abort.
+        unfold todo. rewrite (lookup_filter_nodup _ bk p Hbk). cbn [fst snd].
+        unfold bk at 1. rewrite lookup_snapshot.
+        assert (Lcur : lookup p cur = if covered p then lookup p (dsk s1) else None)
+          by (unfold cur; apply lookup_snapshot).
+        destruct (covered p) eqn:Hc; [|rewrite D1; reflexivity].
+        destruct (lookup p d0) as [c|] eqn:L0.
+        * destruct (same_digest B D digest D_eqb (lookup p cur) c) eqn:SD; cbn [negb]; [|reflexivity].
+          unfold same_digest in SD. rewrite Lcur in SD.
+          destruct (lookup p (dsk s1)) as [c'|]; [|discriminate].
+          apply D_eqb_spec, digest_inj in SD. subst; reflexivity.
+        * destruct (lookup p (dsk s1)) as [c'|] eqn:L1; [|reflexivity].
+          exfalso. apply Hns. apply in_map_iff. exists (p, c'). split; [reflexivity|].
+          unfold strays. apply filter_In. split.
+          -- apply lookup_In. exact Lcur.
+          -- cbn [fst]. unfold has_key, bk. rewrite lookup_snapshot, Hc, L0. reflexivity.
+    - intros p Hp. rewrite K3.
+      + rewrite K2, D1; [reflexivity|]. intro Hin. apply arr_keys, todo_cov in Hin. congruence.
+      + intro Hin. apply arr2, stray_cov in Hin as [Hc _]. congruence.
+  Qed.
+
+  (* ---- CleanAll ---- *)
+
+  Lemma covered_cases p :
+    covered p = true -> in_directory p = true \/ p = gateway_file \/ p = metrics_file.
+  Proof.
+    destruct p as [a n]; unfold covered, in_directory, gateway_file, metrics_file; cbn [fst snd].
+    destruct a; intro H; auto; try discriminate; apply N.eqb_eq in H; subst; auto.
+  Qed.
+
+  Lemma in_directory_covered p : in_directory p = true -> covered p = true.
+  Proof. destruct p as [a n]; unfold covered, in_directory; cbn [fst]. destruct a; auto; discriminate. Qed.
+
+  Lemma clean_all_spec hint s ok s' :
+    clean_all hint s = (ok, s') ->
+    fsop s s' ok /\
+    (ok = true -> forall p, lookup p (dsk s') = if covered p then None else lookup p (dsk s)) /\
+    (forall p, covered p = false -> lookup p (dsk s') = lookup p (dsk s)).
+  Proof.
+    unfold Model.clean_all.
+    set (files := filter in_directory (map fst (snapshot (dsk s)))).
+    assert (files_cov : forall q, In q files -> covered q = true).
+    { intros q Hq. apply filter_In in Hq as [_ Hq]. apply in_directory_covered; exact Hq. }
+    destruct (remove_all false files s) as [ok1 s1] eqn:R1. apply remove_all_spec in R1 as (F1 & E1 & K1).
+    destruct ok1.
+    2:{ intro H; inversion H; subst. split; [exact F1|]. split; [discriminate|].
+        intros p Hp. apply K1. intro Hin. apply files_cov in Hin. congruence. }
+    intro R2. apply remove_all_spec in R2 as (F2 & E2 & K2).
+    assert (two : forall q l, In q (arrange (fun p => p) l [gateway_file; metrics_file]) <->
+                              q = gateway_file \/ q = metrics_file).
+    { intros q l. split; intro H.
+      - eapply Permutation_in in H; [|apply Permutation_sym, arrange_perm].
+        destruct H as [H|[H|[]]]; auto.
+      - eapply Permutation_in; [apply arrange_perm|]. destruct H as [->| ->]; cbn; auto. }
+    split; [eapply fsop_trans; eassumption|]. split.
+    - intros Hok p. rewrite E2 by exact Hok. rewrite E1 by reflexivity.
+      destruct (covered p) eqn:Hc.
+      + destruct (existsb (path_eqb p) (arrange _ _ _)) eqn:X2; [reflexivity|].
+        destruct (existsb (path_eqb p) files) eqn:X1; [reflexivity|].
+        destruct (lookup p (dsk s)) as [c|] eqn:L; [|reflexivity]. exfalso.
+        apply covered_cases in Hc as [Hd|Hf].
+        * assert (In p files); [|apply existsb_path_In in H; congruence].
+          apply filter_In. split; [|exact Hd]. apply in_map_iff. exists (p, c). split; [reflexivity|].
+          apply lookup_In. rewrite lookup_snapshot, (in_directory_covered _ Hd). exact L.
+        * apply (two p (skipn (hk s1) hint)), existsb_path_In in Hf. congruence.
+      + assert (X2 : existsb (path_eqb p) (arrange (fun p => p) (skipn (hk s1) hint) [gateway_file; metrics_file]) = false).
+        { destruct (existsb _ _) eqn:X; [|reflexivity]. apply existsb_path_In, two in X.
+          destruct X as [-> | ->]; discriminate. }
+        rewrite X2.
+        destruct (existsb (path_eqb p) files) eqn:X1; [|reflexivity].
+        apply existsb_path_In, files_cov in X1. congruence.
+    - intros p Hp. rewrite K2.
+      + apply K1. intro Hin. apply files_cov in Hin. congruence.
+      + intro Hin. apply two in Hin. destruct Hin as [-> | ->]; discriminate.
+  Qed.
+
+  (* ---- reloadFlows ---- *)
+
+  Lemma prim_eng hook s f s1 :
+    prim hook s = (f, s1) ->
+    dsk s1 = dsk s /\ eng s1 = eng s /\ seen s1 = eng s :: seen s /\
+    (flt s = NoFault -> f = false /\ flt s1 = NoFault) /\ (f = true -> flt s1 = NoFault).
+  Proof.
+    unfold Model.prim. destruct (tick hook (flt s)) as [fr f'] eqn:T. intro H; inversion H; subst; clear H.
+    cbn. repeat (split; [reflexivity|]). split.
+    - intro Q; rewrite Q in T; cbn in T; inversion T; split; reflexivity.
+    - intros ->. eapply tick_fired; exact T.
+  Qed.
+
+  (* an operation on the engine: the disk is not touched; every arrival during it
+     meets the engine that was running or the one built from the current disk *)
+  Definition engop (s s' : st) : Prop :=
+    dsk s' = dsk s /\
+    (eng s' = eng s \/ eng s' = EBuilt (dsk s)) /\
+    (exists extra, seen s' = extra ++ seen s /\
+                   Forall (fun e => e = eng s \/ e = EBuilt (dsk s)) extra) /\
+    (flt s = NoFault -> flt s' = NoFault).
+
+  Ltac prim_step P :=
+    match goal with
+    | |- context [Model.prim B ?h ?s] =>
+        let f := fresh "f" in let s1 := fresh "s" in
+        destruct (Model.prim B h s) as [f s1] eqn:P;
+        apply prim_eng in P as (?D & ?E & ?S & ?Q & ?N)
+    end.
+
+  Ltac fa := repeat (apply Forall_cons; [auto|]); apply Forall_nil.
+
+  Lemma initialize_streams_spec s ok s' :
+    initialize_streams s = (ok, s') ->
+    engop s s' /\ (ok = true -> eng s' = EBuilt (dsk s)) /\
+    (flt s = NoFault -> ok = true).
+  Proof.
+    unfold Model.initialize_streams, engop.
+    destruct (prim false s) as [f0 s0] eqn:P0. apply prim_eng in P0 as (D0 & E0 & S0 & Q0 & N0).
+    destruct f0.
+    { intro H; inversion H; subst. rewrite D0, E0, S0. split; [|split; [discriminate|intro Q; apply Q0 in Q as [Q _]; discriminate]].
+      split; [reflexivity|]. split; [auto|]. split; [|intro Q; apply Q0; exact Q].
+      exists [eng s]; split; [reflexivity|]. fa. }
+    destruct (prim true s0) as [f1 s1] eqn:P1. apply prim_eng in P1 as (D1 & E1 & S1 & Q1 & N1).
+    destruct f1.
+    { intro H; inversion H; subst. rewrite D1, E1, S1, D0, E0, S0.
+      split; [|split; [discriminate|intro Q; apply Q0 in Q as [_ Q]; apply Q1 in Q as [Q _]; discriminate]].
+      split; [reflexivity|]. split; [auto|]. split; [|intro Q; apply Q1, Q0; exact Q].
+      exists [eng s; eng s]; split; [reflexivity|]. fa. }
+    set (s2 := observe B (with_eng B (EBuilt (dsk s1)) s1)).
+    destruct (prim false s2) as [f3 s3] eqn:P3. apply prim_eng in P3 as (D3 & E3 & S3 & Q3 & N3).
+    assert (Es2 : eng s2 = EBuilt (dsk s)) by (unfold s2; cbn; rewrite D1, D0; reflexivity).
+    assert (Ds2 : dsk s2 = dsk s) by (unfold s2; cbn; rewrite D1, D0; reflexivity).
+    assert (Ss2 : seen s2 = [EBuilt (dsk s); eng s; eng s] ++ seen s)
+      by (unfold s2; cbn; rewrite S1, S0, E0, D1, D0; reflexivity).
+    assert (Qs2 : flt s = NoFault -> flt s2 = NoFault) by (intro Q; unfold s2; cbn; apply Q1, Q0; exact Q).
+    destruct f3.
+    { intro H; inversion H; subst. rewrite D3, E3, S3, Es2, Ds2, Ss2.
+      split; [|split; [discriminate|intro Q; apply Qs2 in Q; apply Q3 in Q as [Q _]; discriminate]].
+      split; [reflexivity|]. split; [auto|]. split; [|intro Q; apply Q3, Qs2; exact Q].
+      exists [EBuilt (dsk s); EBuilt (dsk s); eng s; eng s]; split; [reflexivity|]. fa. }
+    destruct (prim false s3) as [f4 s4] eqn:P4. apply prim_eng in P4 as (D4 & E4 & S4 & Q4 & N4).
+    assert (R : engop s s4 /\ eng s4 = EBuilt (dsk s)).
+    { unfold engop. rewrite D4, E4, S4, D3, E3, S3, Es2, Ds2, Ss2.
+      split; [|reflexivity]. split; [reflexivity|]. split; [auto|]. split; [|intro Q; apply Q4, Q3, Qs2; exact Q].
+      exists [EBuilt (dsk s); EBuilt (dsk s); EBuilt (dsk s); eng s; eng s]; split; [reflexivity|].
+      fa. }
+    destruct R as [R1 R2].
+    destruct f4; intro H; inversion H; subst.
+    - split; [exact R1|]. split; [discriminate|].
+      intro Q; apply Qs2 in Q; apply Q3 in Q as [_ Q]; apply Q4 in Q as [Q _]; discriminate.
+    - split; [exact R1|]. split; [intros _; exact R2|reflexivity].
+  Qed.
+
+  Lemma engop_prim_l s s0 s' :
+    dsk s0 = dsk s -> eng s0 = eng s -> seen s0 = eng s :: seen s ->
+    (flt s = NoFault -> flt s0 = NoFault) ->
+    engop s0 s' -> engop s s'.
+  Proof.
+    intros D0 E0 S0 Q0 (D1 & E1 & (x & S1 & A1) & Q1). unfold engop.
+    rewrite D1, D0. split; [reflexivity|]. rewrite D0, E0 in E1. split; [exact E1|].
+    split; [|intro Q; apply Q1, Q0; exact Q].
+    exists (x ++ [eng s]). split; [rewrite S1, S0, <- app_assoc; reflexivity|].
+    apply Forall_app. split; [|repeat constructor; auto].
+    eapply Forall_impl; [|exact A1]. cbn. rewrite D0, E0. auto.
+  Qed.
+
+  Lemma engop_prim_r s s1 s' :
+    engop s s1 -> dsk s' = dsk s1 -> eng s' = eng s1 -> seen s' = eng s1 :: seen s1 ->
+    (flt s1 = NoFault -> flt s' = NoFault) -> engop s s'.
+  Proof.
+    intros (D1 & E1 & (x & S1 & A1) & Q1) D2 E2 S2 Q2. unfold engop.
+    rewrite D2, D1, E2. split; [reflexivity|]. split; [exact E1|].
+    split; [|intro Q; apply Q2, Q1; exact Q].
+    exists (eng s1 :: x). split; [rewrite S2, S1; reflexivity|].
+    constructor; [exact E1|exact A1].
+  Qed.
+
+  Lemma reload_spec s ok s' :
+    reload s = (ok, s') ->
+    engop s s' /\ (ok = true -> eng s' = EBuilt (dsk s)).
+  Proof.
+    unfold Model.reload.
+    destruct (prim false s) as [f0 s0] eqn:P0. apply prim_eng in P0 as (D0 & E0 & S0 & Q0 & N0).
+    assert (R0 : engop s s0).
+    { unfold engop. rewrite D0, E0, S0. split; [reflexivity|]. split; [auto|].
+      split; [|intro Q; apply Q0; exact Q]. exists [eng s]; split; [reflexivity|repeat constructor; auto]. }
+    destruct (f0 || negb (valid (dsk s0))).
+    { intro H; inversion H; subst. split; [exact R0|discriminate]. }
+    destruct (initialize_streams s0) as [ok1 s1] eqn:I. apply initialize_streams_spec in I as (R1 & B1 & _).
+    assert (R01 : engop s s1).
+    { eapply engop_prim_l; [exact D0|exact E0|exact S0|intro Q; apply Q0; exact Q|exact R1]. }
+    destruct ok1.
+    2:{ intro H; inversion H; subst. split; [exact R01|discriminate]. }
+    destruct (prim false s1) as [f2 s2] eqn:P2. apply prim_eng in P2 as (D2 & E2 & S2 & Q2 & N2).
+    assert (R02 : engop s s2).
+    { eapply engop_prim_r; [exact R01|exact D2|exact E2|exact S2|intro Q; apply Q2; exact Q]. }
+    destruct (f2 || negb (metrics_ok (dsk s2))); intro H; inversion H; subst.
+    - split; [exact R02|discriminate].
+    - split; [exact R02|]. intros _. rewrite E2, B1, D0 by reflexivity. reflexivity.
+  Qed.
+
+  Lemma initialize_streams_fail s s' :
+    initialize_streams s = (false, s') -> flt s' = NoFault.
+  Proof.
+    unfold Model.initialize_streams.
+    destruct (prim false s) as [f0 s0] eqn:P0. apply prim_eng in P0 as (_ & _ & _ & _ & N0).
+    destruct f0; [intro H; inversion H; subst; auto|].
+    destruct (prim true s0) as [f1 s1] eqn:P1. apply prim_eng in P1 as (_ & _ & _ & _ & N1).
+    destruct f1; [intro H; inversion H; subst; auto|].
+    destruct (prim false _) as [f3 s3] eqn:P3. apply prim_eng in P3 as (_ & _ & _ & _ & N3).
+    destruct f3; [intro H; inversion H; subst; auto|].
+    destruct (prim false s3) as [f4 s4] eqn:P4. apply prim_eng in P4 as (_ & _ & _ & _ & N4).
+    destruct f4; intro H; inversion H; subst; auto.
+  Qed.
+
+  (* a reload fails only because the oracle struck (which silences it) or because
+     the configuration on disk does not validate / its metrics do not load *)
+  Lemma reload_progress s ok s' :
+    reload s = (ok, s') ->
+    valid (dsk s) = true -> metrics_ok (dsk s) = true ->
+    (flt s = NoFault -> ok = true) /\ (ok = false -> flt s' = NoFault).
+  Proof.
+    unfold Model.reload. intros R V M. revert R.
+    destruct (prim false s) as [f0 s0] eqn:P0. apply prim_eng in P0 as (D0 & E0 & S0 & Q0 & N0).
+    rewrite D0, V. cbn [negb]. rewrite orb_false_r.
+    destruct f0.
+    { intro H; inversion H; subst. split; [intro Q; apply Q0 in Q as [Q _]; discriminate|auto]. }
+    destruct (initialize_streams s0) as [ok1 s1] eqn:I.
+    pose proof (initialize_streams_spec _ _ _ I) as ((D1 & _ & _ & Q1) & _ & G1).
+    destruct ok1.
+    2:{ intro H; inversion H; subst. split; [|intros _; eapply initialize_streams_fail; exact I].
+        intro Q. apply Q0 in Q as [_ Q]. apply G1 in Q. discriminate. }
+    destruct (prim false s1) as [f2 s2] eqn:P2. apply prim_eng in P2 as (D2 & E2 & S2 & Q2 & N2).
+    rewrite D2, D1, D0, M. cbn [negb]. rewrite orb_false_r.
+    destruct f2; intro H; inversion H; subst.
+    - split; [|auto]. intro Q. apply Q0 in Q as [_ Q]. apply Q1, Q2 in Q as [Q _]. discriminate.
+    - split; [reflexivity|discriminate].
+  Qed.
+
+  (* ---- what the payload writes ---- *)
+
+  Lemma plan_keys hint pl q :
+    In q (map fst (plan B hint pl)) -> exists e, In e pl /\ target e = q.
+  Proof.
+    unfold plan. rewrite in_map_iff. intros [[q' c] [<- H]]. apply in_flat_map in H as [f [_ H]].
+    eapply Permutation_in in H; [|apply Permutation_sym, arrange_perm].
+    unfold items_of in H. apply in_map_iff in H as [e [E He]]. apply filter_In in He as [He _].
+    exists e. split; [exact He|]. inversion E; reflexivity.
+  Qed.
+
+  Lemma plan_covered hint pl q :
+    targets_covered pl = true -> In q (map fst (plan B hint pl)) -> covered q = true.
+  Proof.
+    intros T H. apply plan_keys in H as [e [He <-]].
+    unfold targets_covered in T. rewrite forallb_forall in T. apply T; exact He.
+  Qed.
+
+  (* ---- roll-back ---- *)
+
+  Definition within (P : engine B -> Prop) (s s' : st) : Prop :=
+    exists extra, seen s' = extra ++ seen s /\ Forall P extra.
+
+  Lemma within_refl P s : within P s s.
+  Proof. exists []; split; [reflexivity|constructor]. Qed.
+
+  Lemma within_trans P s s1 s2 : within P s s1 -> within P s1 s2 -> within P s s2.
+  Proof.
+    intros (x1 & S1 & A1) (x2 & S2 & A2). exists (x2 ++ x1).
+    split; [rewrite S2, S1, app_assoc; reflexivity|apply Forall_app; auto].
+  Qed.
+
+  Lemma within_weaken (P Q : engine B -> Prop) s s' :
+    (forall e, P e -> Q e) -> within P s s' -> within Q s s'.
+  Proof. intros W (x & S & A). exists x; split; [exact S|eapply Forall_impl; eauto]. Qed.
+
+  Lemma fsop_within s s' ok : fsop s s' ok -> within (fun e => e = eng s) s s'.
+  Proof. intros (_ & X & _). exact X. Qed.
+
+  Lemma engop_within s s' : engop s s' -> within (fun e => e = eng s \/ e = EBuilt (dsk s)) s s'.
+  Proof. intros (_ & _ & X & _). exact X. Qed.
+
+  Lemma rollback_spec hint d0 wr s r s' :
+    rollback hint (snapshot d0) wr s = (r, s') ->
+    (forall p, covered p = false -> lookup p (dsk s') = lookup p (dsk s)) /\
+    (r = Failed -> forall p, covered p = true -> lookup p (dsk s') = lookup p d0) /\
+    within (fun e => e = eng s \/ (wr = true /\ e = EBuilt (dsk s'))) s s' /\
+    (eng s' = eng s \/ (wr = true /\ eng s' = EBuilt (dsk s'))) /\
+    (wr = true -> r = Failed -> eng s' = EBuilt (dsk s')) /\
+    (flt s = NoFault ->
+     (wr = true -> forall x, (forall p, lookup p x = if covered p then lookup p d0 else lookup p (dsk s)) ->
+                             dsk s' = x -> valid x = true /\ metrics_ok x = true) ->
+     r = Failed).
+  Proof.
+    unfold Model.rollback.
+    destruct (restore hint (snapshot d0) s) as [ok1 s1] eqn:R. apply restore_spec in R as (F1 & E1 & K1).
+    pose proof (fsop_within _ _ _ F1) as W1. destruct F1 as (G1 & _ & Q1 & N1).
+    destruct wr.
+    - destruct (reload s1) as [ok2 s2] eqn:L. pose proof (reload_spec _ _ _ L) as (O2 & B2).
+      pose proof (engop_within _ _ O2) as W2. destruct O2 as (D2 & G2 & _ & Q2).
+      intro H; inversion H; subst; clear H.
+      split; [intros p Hp; rewrite D2; apply K1; exact Hp|].
+      split.
+      { intros HF p Hp. destruct ok1; [|discriminate]. rewrite D2, E1, Hp by reflexivity. reflexivity. }
+      split.
+      { eapply within_trans.
+        - eapply within_weaken; [|exact W1]. cbn; auto.
+        - eapply within_weaken; [|exact W2]. cbn. rewrite G1, D2. intros e [->| ->]; auto. }
+      split; [rewrite D2; destruct G2 as [G2|G2]; [left; congruence|right; auto]|].
+      split.
+      { intros _ HF. destruct ok1, ok2; try discriminate. rewrite D2. apply B2; reflexivity. }
+      intros Q HV. destruct (Q1 Q) as [-> Q1']. cbn [andb].
+      assert (Hx : forall p, lookup p (dsk s1) = if covered p then lookup p d0 else lookup p (dsk s))
+        by (apply E1; reflexivity).
+      destruct (HV eq_refl (dsk s1) Hx D2) as [V M].
+      destruct (reload_progress _ _ _ L V M) as [P _]. rewrite (P Q1'). reflexivity.
+    - intro H; inversion H; subst; clear H.
+      split; [exact K1|]. split.
+      { intros HF p Hp. destruct ok1; [|discriminate]. rewrite E1, Hp by reflexivity. reflexivity. }
+      split; [eapply within_weaken; [|exact W1]; cbn; auto|].
+      split; [left; exact G1|]. split; [discriminate|].
+      intros Q _. destruct (Q1 Q) as [-> _]. reflexivity.
+  Qed.
+
+  Lemma rollback_not_ok hint bk wr s r s' :
+    rollback hint bk wr s = (r, s') -> r = Failed \/ r = RollbackFailed.
+  Proof.
+    unfold Model.rollback. destruct (restore hint bk s) as [ok1 s1]. destruct wr.
+    - destruct (reload s1) as [ok2 s2]. intro H; inversion H. destruct (ok1 && ok2); auto.
+    - intro H; inversion H. destruct ok1; auto.
+  Qed.
+
+  (* ---- the whole update ---- *)
+
+  (* equality on the places the engine reads its configuration from *)
+  Definition ceq (a b : disk B) : Prop := forall p, covered p = true -> lookup p a = lookup p b.
+
+  (* the engine was built from (a disk that holds) configuration d *)
+  Definition served (d : disk B) (e : engine B) : Prop :=
+    exists cfg, e = EBuilt cfg /\ ceq cfg d.
+
+  Lemma served_ceq d cfg : ceq cfg d -> served d (EBuilt cfg).
+  Proof. intro H; exists cfg; auto. Qed.
+
+  Lemma deq_ceq a b : deq a b -> ceq a b.
+  Proof. intros H p _; apply H. Qed.
+
+  Lemma lookup_base h (d : disk B) p :
+    lookup p (base h d) = match h with
+                          | HConfiguration => lookup p d
+                          | HApplyFlows => if covered p then None else lookup p d
+                          end.
+  Proof.
+    destruct h; cbn [base]; [reflexivity|].
+    rewrite (lookup_filter_key (fun k => negb (covered k))). destruct (covered p); reflexivity.
+  Qed.
+
+  Notation run := (run B D digest D_eqb empty garbage valid metrics_ok).
+
+  Lemma reload_ok_valid s s' :
+    reload s = (true, s') -> valid (dsk s) = true /\ metrics_ok (dsk s) = true.
+  Proof.
+    unfold Model.reload.
+    destruct (prim false s) as [f0 s0] eqn:P0. apply prim_eng in P0 as (D0 & _).
+    destruct (f0 || negb (valid (dsk s0))) eqn:C0; [discriminate|].
+    apply orb_false_iff in C0 as [_ C0]. apply negb_false_iff in C0. rewrite D0 in C0.
+    destruct (initialize_streams s0) as [ok1 s1] eqn:I.
+    apply initialize_streams_spec in I as ((D1 & _) & _).
+    destruct ok1; [|discriminate].
+    destruct (prim false s1) as [f2 s2] eqn:P2. apply prim_eng in P2 as (D2 & _).
+    destruct (f2 || negb (metrics_ok (dsk s2))) eqn:C2; [discriminate|].
+    apply orb_false_iff in C2 as [_ C2]. apply negb_false_iff in C2. rewrite D2, D1, D0 in C2.
+    intros _. split; assumption.
+  Qed.
+
+  (* what is claimed about a finished run; k says where in the order hints the
+     files of the payload start *)
+  Definition outcome (hint : list path) (rq : request B) (d : disk B) (f : fault)
+             (r : result) (s' : st) (k : nat) : Prop :=
+    let dn := new_disk B (skipn k hint) rq d in
+    (r <> RollbackFailed -> Forall (fun e => served d e \/ served dn e) (arrivals s')) /\
+    (r = Failed -> ceq (dsk s') d /\ served d (eng s')) /\
+    (r = Failed -> targets_covered (r_payload rq) = true ->
+     forall p, covered p = false -> lookup p (dsk s') = lookup p d) /\
+    (r = Ok -> deq (dsk s') dn /\ eng s' = EBuilt (dsk s') /\
+               valid (dsk s') = true /\ metrics_ok (dsk s') = true) /\
+    (r = RollbackFailed ->
+     (forall a b, ceq a b -> valid a = valid b) -> (forall a b, ceq a b -> metrics_ok a = metrics_ok b) ->
+     valid d = true -> metrics_ok d = true ->
+     f <> NoFault /\ (valid dn = false \/ metrics_ok dn = false)).
+
+  (* so far every transaction met the old engine *)
+  Definition old_only (d : disk B) (s : st) : Prop :=
+    eng s = EBuilt d /\ Forall (fun e => e = EBuilt d) (seen s).
+
+  Lemma fsop_old d s s' ok : fsop s s' ok -> old_only d s -> old_only d s'.
+  Proof.
+    intros (E & (x & S & A) & _) [Eo Ao]. split; [congruence|]. rewrite S.
+    apply Forall_app; split; [|exact Ao]. eapply Forall_impl; [|exact A]. cbn; intros e ->; exact Eo.
+  Qed.
+
+  Lemma served_old d : served d (EBuilt d).
+  Proof. apply served_ceq. intros p _; reflexivity. Qed.
+
+  Lemma old_arrivals d dn s :
+    old_only d s -> Forall (fun e => served d e \/ served dn e) (arrivals s).
+  Proof.
+    intros [E A]. unfold arrivals. constructor; [left; rewrite E; apply served_old|].
+    eapply Forall_impl; [|exact A]. cbn; intros e ->; left; apply served_old.
+  Qed.
+
+  Lemma outcome_early hint rq d f s0 :
+    old_only d s0 -> dsk s0 = d -> outcome hint rq d f Failed s0 0.
+  Proof.
+    intros O D0. unfold outcome. cbn zeta.
+    split; [intros _; apply old_arrivals; exact O|].
+    split; [intros _; split; [intros p _; rewrite D0; reflexivity|destruct O as [-> _]; apply served_old]|].
+    split; [intros _ _ p _; rewrite D0; reflexivity|].
+    split; discriminate.
+  Qed.
+
+  (* a file-system step of the update failed: roll back without reload *)
+  Lemma outcome_fs_failure hint rq d f s r s' k :
+    old_only d s -> flt s = NoFault ->
+    (targets_covered (r_payload rq) = true -> forall p, covered p = false -> lookup p (dsk s) = lookup p d) ->
+    rollback hint (snapshot d) false s = (r, s') ->
+    outcome hint rq d f r s' k.
+  Proof.
+    intros O Q U R. apply rollback_spec in R as (A & Bc & W & G & _ & Fq).
+    assert (r = Failed) as -> by (apply Fq; [exact Q|discriminate]).
+    assert (O' : old_only d s').
+    { destruct O as [Eo Ao]. destruct G as [G|[G _]]; [|discriminate]. split; [congruence|].
+      destruct W as (x & S & Ax). rewrite S. apply Forall_app; split; [|exact Ao].
+      eapply Forall_impl; [|exact Ax]. cbn. intros e [->|[X _]]; [exact Eo|discriminate]. }
+    unfold outcome. cbn zeta.
+    split; [intros _; apply old_arrivals; exact O'|].
+    split; [intros _; split; [intros p Hp; apply Bc; auto|destruct O' as [-> _]; apply served_old]|].
+    split; [intros _ T p Hp; rewrite A by exact Hp; apply U; assumption|].
+    split; discriminate.
+  Qed.
+
+  Lemma run_master hint rq d f r s' :
+    run hint rq d f = (r, s') -> exists k, outcome hint rq d f r s' k.
+  Proof.
+    unfold Model.run, Model.update.
+    set (si := init_state B d f).
+    assert (Oi : old_only d si) by (split; [reflexivity|constructor]).
+    destruct (r_method_ok rq); cbn [negb].
+    2:{ intro H; injection H as <- <-. exists 0. apply outcome_early; [exact Oi|reflexivity]. }
+    destruct (r_body_ok rq); cbn [negb].
+    2:{ intro H; injection H as <- <-. exists 0. apply outcome_early; [exact Oi|reflexivity]. }
+    destruct (Model.prim B false si) as [f0 s0] eqn:P0. apply prim_spec in P0 as [D0 F0].
+    change (dsk si) with d in D0.
+    pose proof (fsop_old d _ _ _ F0 Oi) as O0.
+    destruct f0.
+    { intro H; injection H as <- <-. exists 0. apply outcome_early; assumption. }
+    cbn [negb] in F0. rewrite D0.
+    destruct (forallb e_decodable (r_payload rq)); cbn [negb].
+    2:{ intro H; injection H as <- <-. exists 0. apply outcome_early; assumption. }
+    (* CleanAll (apply_flows only) *)
+    set (cl := match r_handler rq with HApplyFlows => clean_all hint s0 | HConfiguration => (true, s0) end).
+    assert (C : exists okc s1, cl = (okc, s1) /\ fsop s0 s1 okc /\
+                (okc = true -> deq (dsk s1) (base (r_handler rq) d)) /\
+                (forall p, covered p = false -> lookup p (dsk s1) = lookup p d)).
+    { unfold cl. destruct (r_handler rq).
+      - exists true, s0. split; [reflexivity|]. split; [apply fsop_refl|].
+        split; [intros _ p; rewrite D0; reflexivity|intros p _; rewrite D0; reflexivity].
+      - destruct (clean_all hint s0) as [okc s1] eqn:CA. exists okc, s1. split; [reflexivity|].
+        apply clean_all_spec in CA as (Fc & Ec & Kc). split; [exact Fc|]. split.
+        + intros Hok p. rewrite Ec by exact Hok. rewrite lookup_base, D0. reflexivity.
+        + intros p Hp. rewrite Kc by exact Hp. rewrite D0. reflexivity. }
+    destruct C as (okc & s1 & -> & Fc & Ec & Kc).
+    assert (F01 : fsop si s1 okc) by (eapply fsop_trans; eassumption).
+    pose proof (fsop_old d _ _ _ Fc O0) as O1.
+    destruct okc.
+    2:{ intro R. exists 0. eapply outcome_fs_failure; [exact O1| |intros _; exact Kc|exact R].
+        destruct Fc as (_ & _ & _ & N). apply N; reflexivity. }
+    (* SavePayloadContentToDisk *)
+    set (pln := plan B (skipn (hk s1) hint) (r_payload rq)).
+    destruct (store_all pln s1) as [oks s2] eqn:SA. apply store_all_spec in SA as (Fs & Es & Ks).
+    assert (F02 : fsop si s2 oks) by (eapply fsop_trans; eassumption).
+    pose proof (fsop_old d _ _ _ Fs O1) as O2.
+    assert (U2 : targets_covered (r_payload rq) = true ->
+                 forall p, covered p = false -> lookup p (dsk s2) = lookup p d).
+    { intros T p Hp. rewrite Ks; [apply Kc; exact Hp|].
+      intro Hin. apply (plan_covered _ _ _ T) in Hin. congruence. }
+    intro R0; exists (hk s1); revert R0.
+    destruct oks.
+    2:{ intro R. eapply outcome_fs_failure; [exact O2| |exact U2|exact R].
+        destruct Fs as (_ & _ & _ & N). apply N; reflexivity. }
+    assert (Dn : deq (dsk s2) (new_disk B (skipn (hk s1) hint) rq d)).
+    { unfold new_disk. fold pln. eapply deq_trans; [apply Es; reflexivity|].
+      apply apply_list_ext. apply Ec; reflexivity. }
+    (* reloadFlows *)
+    destruct (reload s2) as [okr s3] eqn:RL.
+    pose proof (reload_spec _ _ _ RL) as (O3 & B3).
+    pose proof (engop_within _ _ O3) as W3. destruct O3 as (D3 & G3 & _ & Q3).
+    destruct O2 as [E2 A2].
+    set (dn := new_disk B (skipn (hk s1) hint) rq d) in *.
+    assert (P2 : forall e, e = eng s2 \/ e = EBuilt (dsk s2) -> served d e \/ served dn e).
+    { intros e [->| ->]; [left; rewrite E2; apply served_old|right; apply served_ceq, deq_ceq; exact Dn]. }
+    assert (S3 : Forall (fun e => served d e \/ served dn e) (seen s3)).
+    { destruct W3 as (x & S & A). rewrite S. apply Forall_app. split.
+      - eapply Forall_impl; [|exact A]. exact P2.
+      - eapply Forall_impl; [|exact A2]. cbn; intros e ->; left; apply served_old. }
+    destruct okr.
+    { intro H; injection H as <- <-. unfold outcome. cbn zeta. fold dn.
+      split.
+      { intros _. unfold arrivals. constructor; [|exact S3]. apply P2. right. apply B3; reflexivity. }
+      split; [discriminate|]. split; [discriminate|].
+      split; [|discriminate]. intros _.
+      destruct (reload_ok_valid _ _ RL) as [V M].
+      split; [intro p; rewrite D3; apply Dn|]. split; [rewrite D3; apply B3; reflexivity|].
+      rewrite D3. split; assumption. }
+    (* the reload failed: Restore, then reload again *)
+    intro R. pose proof (rollback_not_ok _ _ _ _ _ _ R) as Rk.
+    apply rollback_spec in R as (A & Bc & W & G & Eb & Fq).
+    unfold outcome. cbn zeta. fold dn.
+    assert (P3 : served d (eng s3) \/ served dn (eng s3)) by (apply P2; exact G3).
+    split.
+    { intros Hr. assert (r = Failed) as -> by (destruct Rk; [assumption|contradiction]).
+      assert (Pn : served d (EBuilt (dsk s'))) by (apply served_ceq; intros p Hp; apply Bc; auto).
+      unfold arrivals. constructor.
+      - destruct G as [->|[_ ->]]; [exact P3|left; exact Pn].
+      - destruct W as (x & S & Ax). rewrite S. apply Forall_app. split; [|exact S3].
+        eapply Forall_impl; [|exact Ax]. cbn. intros e [->|[_ ->]]; [exact P3|left; exact Pn]. }
+    split.
+    { intros ->. split; [intros p Hp; apply Bc; auto|].
+      rewrite Eb by reflexivity. apply served_ceq. intros p Hp; apply Bc; auto. }
+    split.
+    { intros _ T p Hp. rewrite A by exact Hp. rewrite D3. apply U2; assumption. }
+    split; [intros ->; destruct Rk; discriminate|].
+    intros -> Vx Mx Vd Md.
+    assert (restored_ok : forall x, (forall p, lookup p x = if covered p then lookup p d else lookup p (dsk s3)) ->
+                                    valid x = true /\ metrics_ok x = true).
+    { intros x Hx. assert (ceq x d) by (intros p Hp; rewrite Hx, Hp; reflexivity).
+      rewrite (Vx x d), (Mx x d) by assumption. split; assumption. }
+    split.
+    - (* without any fault the roll-back cannot fail *)
+      intros ->. assert (Q2 : flt s2 = NoFault) by (destruct F02 as (_ & _ & Q & _); apply Q; reflexivity).
+      assert (RollbackFailed = Failed); [|discriminate].
+      apply Fq; [apply Q3; exact Q2|]. intros _ x Hx _. apply restored_ok; exact Hx.
+    - (* with a payload that validates and loads, the reload failed by the fault, which is then spent *)
+      destruct (valid dn) eqn:Vn; [|left; reflexivity].
+      destruct (metrics_ok dn) eqn:Mn; [|right; reflexivity].
+      exfalso.
+      assert (V2 : valid (dsk s2) = true) by (rewrite (Vx _ dn); [exact Vn|apply deq_ceq; exact Dn]).
+      assert (M2 : metrics_ok (dsk s2) = true) by (rewrite (Mx _ dn); [exact Mn|apply deq_ceq; exact Dn]).
+      destruct (reload_progress _ _ _ RL V2 M2) as [_ Nf].
+      assert (RollbackFailed = Failed); [|discriminate].
+      apply Fq; [apply Nf; reflexivity|]. intros _ x Hx _. apply restored_ok; exact Hx.
+  Qed.
 
 End Steps.
